@@ -102,7 +102,7 @@ def _tb_site(e):
 def replay_failure(po, shape, clause, values, seed, tries=150):
     """Replay a counter-model natively; search around it if it does not reproduce at the point."""
     results, rejected, exc, S = run_native(po, shape, values)
-    hit = _clause_false(results, clause)
+    hit = _clause_false(results, clause) or _exc_hit(clause, exc)
     info = {"at_model": {"clause_false": hit, "rejected_by_precondition": rejected, "native_exception": exc}}
     if hit:
         return True, values, info
@@ -115,14 +115,14 @@ def replay_failure(po, shape, clause, values, seed, tries=150):
             else:
                 pert[k] = _perturb(v, rng, S.kinds.get(k))
         results, rejected, exc2, _ = run_native(po, shape, pert)
-        if not rejected and _clause_false(results, clause):
+        if not rejected and (_clause_false(results, clause) or _exc_hit(clause, exc2)):
             info["search"] = {"tries": i + 1, "found": True}
             return True, pert, info
     # the model's values of contracted callees (uninterpreted results) need not be realisable by the real callee:
     # fall back to sampling the PO's own input ranges natively
     for i in range(tries * 2):
         results, rejected, exc2, S2 = run_native(po, shape, None, rng)
-        if not rejected and _clause_false(results, clause):
+        if not rejected and (_clause_false(results, clause) or _exc_hit(clause, exc2)):
             info["search"] = {"tries": tries + i + 1, "found": True, "by": "range sampling"}
             return True, {k: _serx(v) for k, v in S2.inputs.items()}, info
     info["search"] = {"tries": tries * 3, "found": False}
@@ -150,7 +150,16 @@ def _perturb(v, rng, kind):
     return str(nf)
 
 
+def _exc_hit(clause, exc):
+    """obligation 'no-exception-escapes:<Type>' is reproduced when the native run raises that exception type"""
+    if not clause.startswith("no-exception-escapes:") or not exc:
+        return False
+    return clause.split(":", 1)[1] in exc
+
+
 def _clause_false(results, clause):
+    if clause.startswith("no-exception-escapes:"):
+        return False
     if not any(n == clause for n, _, _ in results):
         # the failed obligation has no native counterpart (loop invariant, callee precondition): any
         # postcondition of the same PO failing natively is the failing input for it
